@@ -508,10 +508,17 @@ def shrink_case(binp, case_lines, fail_idx, dbg, want_type, budget=120):
     head = case_lines[0]
     if "_unchecked" in case_lines[fail_idx]:
         return case_lines[:fail_idx + 1]   # shrinking could leave the documented precondition
-    setup = [l for l in case_lines[1:fail_idx] if l.split(" ", 1)[0] in ("cfg", "tie", "mk", "op")]
+    setup = [l for l in case_lines[1:fail_idx] if l.split(" ", 1)[0] in ("cfg", "tie", "mk", "op", "cf")]
     cur = [head] + setup + [case_lines[fail_idx]]
+    # shrinking re-runs both interpreters: bound it by the size of the case (a 2-million-element case is
+    # replayed as it is) and by wall-clock time
+    size = sum(len(l) for l in cur)
+    budget = budget if size < 300_000 else (30 if size < 3_000_000 else 6)
+    t_end = time.time() + 90
 
     def fails(lines):
+        if time.time() > t_end:
+            return False        # time budget used up: keep what has been achieved
         impl, model = eval_script(binp, lines, dbg, "s")
         d = compare(lines, impl, model)
         return any(x["line"] == len(lines) - 1 and x["type"] == want_type for x in d) or \
